@@ -32,3 +32,25 @@ Definition kept_or_held (gatts : props) (gl : list string) (a x : string) : Prop
   smem a gl = false \/ assoc a gatts = Some x.
 
 Definition no_modification (l : list event) : Prop := forallb (fun ev => negb (modifying ev)) l = true.
+
+(* ---- what the re-read must have given the writer (hypothesis of the old-fields theorem,
+        evaluated on every generated case by Run.check_covers) ------------------------------ *)
+(* every name that occurs in the file: dimensions, variables, names in
+   reference attributes, dimensions of variables *)
+Definition names_of (e : file) : list string :=
+  map fst (d_dims e) ++ map v_name (d_vars e) ++ referenced e ++ concat (map v_dims (d_vars e)).
+
+Definition dnames (e : file) : list string := map v_name (data_vars e).
+
+(* the dry run over [orig] (what cfdm.read returned for E) has registered
+   every name of E as being in use, has registered no data variable of E as
+   the variable of a coordinate-like construct or of bounds, and has created
+   nothing; the dimensions of E's data variables exist *)
+Definition covers (vr : variant) (e : file) (orig : list field) : bool :=
+  let s := dry_run vr e orig in
+  forallb (fun n => smem n (existing s)) (names_of e) &&
+  forallb (fun en => negb (smem (e_ncvar en) (dnames e))) (w_seen s) &&
+  forallb (fun p => negb (smem (snd p) (dnames e))) (w_bnds s) &&
+  Nat.eqb (length (d_vars (w_file s))) (length (d_vars e)) &&
+  forallb (fun v => forallb (fun d => match assoc d (d_dims e) with Some _ => true | None => false end) (v_dims v))
+          (data_vars e).
